@@ -40,6 +40,7 @@ func checkC12(c *chk.Ctx) {
 	ruleR12d(h)
 	ruleR12e(h)
 	ruleR12f(h)
+	ruleR06dInto(h, "R12g", false)
 }
 
 // applyCallFor returns, in the function that builds the WriteResponse, the call whose
